@@ -214,7 +214,7 @@ def run(ctx):
     dump = os.path.join(ctx.tmp, "pkg_universe.json")
     futs = [("MC_PkgConfig(stream,<=%d tokens)" % (2 if quick else 3), "mc",
              pool.submit(core.tlc, "MC_PkgConfig", cfg_text=mc_cfg("stream", 2 if quick else 3), workers=4, timeout=3000)),
-            ("MC_PkgConfig(merge%s)" % ("" if quick else ",full alphabet"), "mc",
+            ("MC_PkgConfig(merge%s)" % (",2 tokens" if quick else ",4 tokens"), "mc",
              pool.submit(core.tlc, "MC_PkgConfig", cfg_text=mc_cfg("merge", 1, full=not quick),
                                                       workers=4 if quick else 8, timeout=3000)),
             ("oracle dump", "dump", pool.submit(core.tlc, "MC_PkgConfig", cfg_text=mc_cfg("dump", 1 if quick else 2),
